@@ -28,11 +28,19 @@ def run_forked(fn, arg, timeout):
     """Run fn(arg) in a forked child; return ("res", obj) | ("err", text, kind)."""
     r, w = os.pipe()
     sys.stdout.flush()
+    # every case gets its own temp directory, removed by the parent whatever the child did
+    # (the code under test leaves memento_partition_* staging directories behind)
+    import shutil
+    import tempfile
+
+    case_tmp = tempfile.mkdtemp(prefix="vf-case-")
     pid = os.fork()
     if pid == 0:
         code = 0
         try:
             os.close(r)
+            os.environ["TMPDIR"] = case_tmp
+            tempfile.tempdir = case_tmp
             try:
                 out = {"res": fn(arg)}
             except BaseException:
@@ -66,6 +74,7 @@ def run_forked(fn, arg, timeout):
         except ProcessLookupError:
             pass
     _, status = os.waitpid(pid, 0)
+    shutil.rmtree(case_tmp, ignore_errors=True)
     if timed_out:
         return {"err": "case exceeded the %ss watchdog" % timeout, "kind": "timeout"}
     data = b"".join(chunks)
